@@ -305,6 +305,11 @@ def run(ctx):
                      '%s reachable for task states %s after the refresh'
                      % (name, sorted(tv & (completed | {S['RUNNING']}))),
                      ctx.loc(rf, c))
+            r4.check(S['WAITING'] in tv,
+                     ctx.construct(rf, extra=name + ' for WAITING tasks'),
+                     '%s is not reachable for a WAITING task: a join whose '
+                     'preconditions are decided never moves on' % name,
+                     ctx.loc(rf, c))
             r4.check(sv == {want}, ctx.construct(rf, extra=name + ' logical '
                                                  'state'),
                      '%s reachable for logical states %s'
